@@ -196,3 +196,53 @@ fn de_record(r: &Record, meta: &AdtMetadata, ctx: &mut DeserializationContext<'_
     }
     Ok(out)
 }
+
+/// A tolerant client: reads the fields of a struct declaration one by one with ONE AdtDeserializer and carries on
+/// after a field fails (every call is safe public API). Returns a digest per field.
+pub fn read_fields_tolerantly(d: &Arc<Decl>, ctx: &mut DeserializationContext<'_>) -> Vec<String> {
+    let r = match &d.body {
+        DeclBody::Struct(r) => r,
+        _ => return vec!["not a struct".into()],
+    };
+    let meta = meta_for(d);
+    let stored_version = match ctx.read_u8() {
+        Ok(v) => v,
+        Err(e) => return vec![format!("version: {e:?}")],
+    };
+    let mut deserializer = match if stored_version == 0 { AdtDeserializer::new_v0(&meta.top, ctx) } else { AdtDeserializer::new(&meta.top, ctx, stored_version) } {
+        Ok(d) => d,
+        Err(e) => return vec![format!("header: {e:?}")],
+    };
+    let mut out = Vec::new();
+    for f in &r.fields {
+        if f.transient.is_some() {
+            continue;
+        }
+        let default = r.default_of(&f.name);
+        let res: Result<Val> = match &f.ty {
+            vmodel::Ty::Option(inner) => {
+                let dflt: Option<Option<Live>> = default.map(|d| match d {
+                    Val::None => None,
+                    Val::Some(x) => Some(Live::from_val(inner, x)),
+                    other => panic!("default of optional field is {other:?}"),
+                });
+                let _g = FrameGuard::push(vec![(**inner).clone()]);
+                deserializer.read_optional_field::<Live>(&f.name, dflt).map(|v| match v {
+                    Some(x) => Val::some(x.to_val()),
+                    None => Val::None,
+                })
+            }
+            ty => {
+                let dflt: Option<Live> = default.map(|d| Live::from_val(ty, d));
+                let _g = FrameGuard::push(vec![ty.clone()]);
+                deserializer.read_field::<Live>(&f.name, dflt).map(|v| v.to_val())
+            }
+        };
+        out.push(match res {
+            // hash containers iterate in a per-instance order: digest the canonical form
+            Ok(v) => format!("{}=Ok {:?}", f.name, vmodel::canon(&f.ty, &v)),
+            Err(e) => format!("{}=Err {e:?}", f.name),
+        });
+    }
+    out
+}
